@@ -184,7 +184,7 @@ pub fn gen_case(seed: u64, idx: u64) -> HistorySpec {
 
 async fn one_case(report: &Report, seed: u64, idx: u64) {
     let spec = gen_case(seed, idx);
-    let out = match run_history(&spec, Duration::from_secs(40)).await {
+    let out = match run_history(&spec, WATCHDOG).await {
         Ok(o) => o,
         Err(e) => {
             report.count("setup_failures", 1);
@@ -310,7 +310,7 @@ fn selftest(args: &Args) -> i32 {
     let mut tried = [0u32; 3];
     for idx in 0..40u64 {
         let spec = gen_case(args.seed, idx);
-        let Ok(out) = rt.block_on(run_history(&spec, Duration::from_secs(40))) else { continue };
+        let Ok(out) = rt.block_on(run_history(&spec, WATCHDOG)) else { continue };
         let clean = rt.block_on(check_serial(&out, None));
         if !clean.findings.is_empty() || clean.harness_error.is_some() || clean.commit_order.is_empty() {
             continue;
